@@ -43,6 +43,17 @@ HELPERS = ["partial", "deterministic_choice", "ExperimentConditionalFailedError"
            "str", "map"]
 
 
+ROLES = {}
+
+
+def resolved_at_run_time(name):
+    """is `name` something the generated code RESOLVES when it runs (a function it calls or defines, an exception it raises,
+    an imported name, its **kwargs), as opposed to a local it assigns?  A field carrying such a name shadows it: the class of
+    the recorded finding 'helper-name', whatever the helper happens to be called in this version of the generator."""
+    r = ROLES.get(name, set())
+    return bool(r & {"called", "raised", "defined", "imported", "vararg"}) and "stored" not in r
+
+
 def generated_vocabulary():
     """Every identifier the generated Python text itself uses (function and parameter names, locals, imported names,
     keyword-argument names, attribute names, builtins it calls), harvested from the text the real generator emits for two
@@ -64,19 +75,32 @@ def generated_vocabulary():
                 tree = _ast.parse(code)
             except Exception:
                 continue
+            def role(n, r):
+                names.add(n)
+                ROLES.setdefault(n, set()).add(r)
             for node in _ast.walk(tree):
                 if isinstance(node, _ast.Name):
-                    names.add(node.id)
+                    role(node.id, "stored" if isinstance(node.ctx, _ast.Store) else "loaded")
                 elif isinstance(node, (_ast.FunctionDef, _ast.ClassDef)):
-                    names.add(node.name)
+                    role(node.name, "defined")
+                    if isinstance(node, _ast.FunctionDef):
+                        for a_ in (node.args.vararg, node.args.kwarg):
+                            if a_ is not None:
+                                role(a_.arg, "vararg")
                 elif isinstance(node, _ast.arg):
-                    names.add(node.arg)
+                    role(node.arg, "param")
                 elif isinstance(node, _ast.keyword) and node.arg:
-                    names.add(node.arg)
+                    role(node.arg, "kwarg")
                 elif isinstance(node, _ast.alias):
-                    names.add((node.asname or node.name).split(".")[0])
+                    role((node.asname or node.name).split(".")[0], "imported")
                 elif isinstance(node, _ast.Attribute):
-                    names.add(node.attr)
+                    role(node.attr, "attr")
+                if isinstance(node, _ast.Call) and isinstance(node.func, _ast.Name):
+                    role(node.func.id, "called")
+                if isinstance(node, _ast.Raise) and node.exc is not None:
+                    f_ = node.exc.func if isinstance(node.exc, _ast.Call) else node.exc
+                    if isinstance(f_, _ast.Name):
+                        role(f_.id, "raised")
     import re as _re
     own = {"zq_exp", "zq_a", "zq_b", "zq_c", "zq_d"}
     dsl_kw = {"in", "not", "def", "if", "else", "return", "and", "or", "salt", "splitters", "weighted"}
@@ -212,7 +236,7 @@ def classify_known(r, known):
         cls = f.get("class")
         if cls == "python-reserved-word" and r["name"] in RESERVED and r["kind"].startswith("id-as"):
             return f
-        if cls == "helper-name" and r["name"] in HELPERS and r["kind"].startswith("id-as"):
+        if cls == "helper-name" and r["kind"].startswith("id-as") and (r["name"] in HELPERS or resolved_at_run_time(r["name"])):
             return f
     return None
 
